@@ -97,6 +97,23 @@ fn main() {
         rec["pair_match"] = json!(pair_match);
     }
 
+    // generic observations requested on the command line: stat:<label>=<path>, ls:<label>=<dir>
+    let mut stats = Map::new();
+    for (k, v) in kv.iter() {
+        if let (Some(label), Some(path)) = (k.strip_prefix("stat:"), v.as_str()) {
+            stats.insert(label.to_string(), file_info(path));
+        } else if let (Some(label), Some(path)) = (k.strip_prefix("ls:"), v.as_str()) {
+            let mut names: Vec<String> = std::fs::read_dir(path)
+                .map(|rd| rd.filter_map(|e| e.ok()).map(|e| e.file_name().to_string_lossy().to_string()).collect())
+                .unwrap_or_default();
+            names.sort();
+            stats.insert(label.to_string(), json!({"dir_exists": std::path::Path::new(path).is_dir(), "entries": names}));
+        }
+    }
+    if !stats.is_empty() {
+        rec["stats"] = Value::Object(stats);
+    }
+
     let hold = plan.get("hold_ms").and_then(|v| v.as_u64()).unwrap_or(2);
     let extra = plan.get("sleep_ms").and_then(|m| m.get(&hook)).and_then(|v| v.as_u64()).unwrap_or(0);
     std::thread::sleep(std::time::Duration::from_millis(hold + extra));
